@@ -184,3 +184,47 @@ Theorem timeout_choice : forall rt ot,
   model_timeout MOpen rt ot = ot.
 Proof. exact timeout_choice_l. Qed.
 Print Assumptions timeout_choice.
+
+(* ------------------------------------------------------------------ *)
+(* cookies over histories of any length                                *)
+(* ------------------------------------------------------------------ *)
+From SV Require Import C15.CookieProofs.
+
+(* after ANY sequence of Set-Cookie events (set / replace / expire, any paths) the jar holds a
+   cookie exactly when the last event about its (path, name) was a set, with that value ... *)
+Theorem cookie_history : forall history p n v,
+  In (mkCookie p n v) (jar_of history) <-> In (mkCookie p n v) (spec_live history).
+Proof. exact cookie_history_l. Qed.
+Print Assumptions cookie_history.
+
+(* ... so the pairs that accompany the next request to any path are the specified ones ... *)
+Theorem cookie_header_matches_history : forall history path x,
+  In x (cookies_for (jar_of history) path) <-> In x (cookies_for (spec_live history) path).
+Proof. exact cookie_header_l. Qed.
+Print Assumptions cookie_header_matches_history.
+
+(* ... and never two values for one (path, name) *)
+Theorem jar_unique : forall history, uniq (jar_of history).
+Proof. exact jar_unique_l. Qed.
+Print Assumptions jar_unique.
+
+(* the jar moves exactly on the replies urllib returned: Set-Cookie lines of an HTTPError reply
+   (3xx-5xx) are dropped, because getcookies() is only reached after u2open() returned *)
+Theorem delivered_replies_update_jar : forall P k c j q p,
+  p_challenge p = None -> is_2xx (p_status p) = true ->
+  snd (model_step P k c j q p) = fold_left jar_apply (map (resolve (q_path q)) (p_cookies p)) j.
+Proof. exact delivered_replies_update_jar_l. Qed.
+Print Assumptions delivered_replies_update_jar.
+
+Theorem error_replies_leave_jar : forall P k c j q p,
+  p_challenge p = None -> is_2xx (p_status p) = false -> snd (model_step P k c j q p) = j.
+Proof. exact error_replies_leave_jar_l. Qed.
+Print Assumptions error_replies_leave_jar.
+
+Example cookies_nonvacuous :
+  let sl := [47]%N in let a := [97]%N in let b := [98]%N in
+  let h := [(true, sl, a, [49]%N); (true, [47; 115]%N, b, [50]%N); (false, sl, a, []); (true, sl, a, [51]%N);
+            (false, [47; 115]%N, b, [])] in
+  cookies_for (jar_of h) [47; 115; 47; 120]%N = [(a, [51]%N)] /\
+  cookies_for (spec_live h) [47; 115; 47; 120]%N = [(a, [51]%N)].
+Proof. split; reflexivity. Qed.
